@@ -11,9 +11,12 @@
    and the output bytes a call hands back are those of one expectation, the one it consumed (C08_Outs.v).  NOT covered by the
    theorems beyond that clause (model = implementation agreement only): which expectation a call consumes and the diagnoses under
    ignoreOtherParameters, expectations without object called on an object, intermediate clear/check/expectedCallsLeft,
-   enable/disable, expectations added between calls; not modelled: custom comparators/copiers, tracing, nested scopes. *)
+   enable/disable, expectations added between calls; not modelled: custom comparators/copiers, tracing, nested scopes.
+   A RUN of several tests sharing one TestResult with the MockSupportPlugin installed (C08_Runs.v): every test is the scenario "its
+   mock operations, then the plugin's check" on a new mock, whatever the earlier tests did; the object of a call as a value (the
+   null object is an object; no onObject is not). *)
 From Coq Require Import ZArith NArith Bool List Permutation.
-From CppUVerif Require Import lib.CInt lib.Str C08_Model C08_Proofs C08_Proofs2 C08_Scopes C08_Count C08_Outs C08_Post C08_Proofs3.
+From CppUVerif Require Import lib.CInt lib.Str C08_Model C08_Proofs C08_Proofs2 C08_Scopes C08_Count C08_Outs C08_Post C08_Proofs3 C08_Runs.
 From CppUVerif Require C09_Model.
 Import ListNotations.
 
@@ -261,3 +264,111 @@ Print Assumptions C08_call_delivers_consumed.
 Theorem C08_coherent_every_run : forall ops, coherent ops (runw ops) = true.
 Proof. exact coherent_run. Qed.
 Print Assumptions C08_coherent_every_run.
+
+(* ---------------------------------------------------------------- a run of several tests, one TestResult, the MockSupportPlugin installed *)
+
+(* the run meets its specification: every test whose own checks pass is judged as the scenario "its mock operations, then the
+   plugin's end-of-test check" (specw) whatever happened in the tests before it; a test left at its own failing check fails exactly
+   once and nothing is added by the plugin; every failure observed in a test is counted once in the run's failure counter *)
+Theorem C08_runs_meet_spec : forall ts, valid_run ts = true -> spec_run ts (runs ts) = true.
+Proof. exact runs_meet_spec. Qed.
+Print Assumptions C08_runs_meet_spec.
+
+(* C08_run_meets_spec for every valid scenario of the extended language: a single scenario (operations on mock() and its scopes)
+   or a run of tests *)
+Theorem C08_run_top_meets_spec : forall s, valid_top s = true -> spec_top s (run_top s) = true.
+Proof. exact run_top_meets_spec. Qed.
+Print Assumptions C08_run_top_meets_spec.
+
+(* the verdict of test k depends on test k only: the observation of a run is the list of the observations of its tests run ALONE
+   (each on a new mock and a new TestResult), the failure counter summed up -- nothing else passes from one test to the next *)
+Theorem C08_run_tests_independent : forall ts, runs ts = sums 0 (map run_alone ts).
+Proof. exact runs_independent. Qed.
+Print Assumptions C08_run_tests_independent.
+Theorem C08_run_test_alone : forall ts k t o, nth_error ts k = Some t -> nth_error (runs ts) k = Some o ->
+  to_obs o = to_obs (run_alone t) /\ to_own o = to_own (run_alone t) /\
+  to_total o = (fold_right (fun x s => to_total (run_alone x) + s) 0 (firstn k ts) + to_total (run_alone t))%N.
+Proof. exact run_test_alone. Qed.
+Print Assumptions C08_run_test_alone.
+
+(* expectations do not leak: however a test ended (passed, failed by the plugin, left at a mock failure or at its own check), the
+   plugin leaves mock() as a new one, so every test of a run starts on a new mock *)
+Theorem C08_run_test_leaves_mock_clear : forall st t, rs_world (fst (run_one plugin_post true st t)) = world0.
+Proof. exact run_one_clears. Qed.
+Print Assumptions C08_run_test_leaves_mock_clear.
+Theorem C08_run_ends_clear : forall ts st, rs_world st = world0 -> rs_world (fst (run_tests plugin_post true st ts)) = world0.
+Proof. exact run_tests_clean. Qed.
+Print Assumptions C08_run_ends_clear.
+
+(* a test whose own checks pass IS the single scenario that ends with the plugin's check (so C08_post_refines_M, C08_post_fails_once
+   ... speak about every test of a run) *)
+Theorem C08_run_test_is_scenario : forall t, own_fails t = false ->
+  to_obs (run_alone t) = runw (ops_before t ++ [(0%N, OPost)]) /\ to_own (run_alone t) = false.
+Proof. exact run_alone_is_scenario. Qed.
+Print Assumptions C08_run_test_is_scenario.
+
+(* its own earlier failure suppresses the mock failure: a test with a failing check of its own is the operations before that
+   check and fails exactly once -- at that check, or at the mock failure an operation before it raised *)
+Theorem C08_run_own_failure_once : forall t, own_fails t = true ->
+  to_obs (run_alone t) = runw (ops_before t) /\ to_total (run_alone t) = 1%N /\
+  to_own (run_alone t) = passed_obs (to_obs (run_alone t)).
+Proof. exact run_alone_own_failure. Qed.
+Print Assumptions C08_run_own_failure_once.
+
+(* the failures a test adds to the TestResult are exactly the failures observed in it *)
+Theorem C08_run_counts_failures : forall t, forallb step_valid t = true -> to_total (run_alone t) = failures_in (run_alone t).
+Proof. exact run_alone_counts. Qed.
+Print Assumptions C08_run_counts_failures.
+
+(* verdict of a test of a run on the reference semantics: a test whose own checks pass and whose mock script is canonical and
+   judged adds NO failure to the run iff in every scope the multiset (strict order: the sequence) of its actual calls is that of
+   its expectations *)
+Theorem C08_run_test_verdict : forall t k, forallb step_valid t = true -> own_fails t = false ->
+  parsew (ops_before t ++ [(0%N, OCheck)]) = Some k -> judgedw k = true ->
+  (to_total (run_alone t) = 0%N <-> verdictw_ok k = true).
+Proof. exact run_alone_verdict. Qed.
+Print Assumptions C08_run_test_verdict.
+
+(* variants of the post action that do not have the property: deciding from the run's failure count, checking although the test
+   has failed, clearing only after a check *)
+Theorem C08_plugin_runwide_refuted : ~ plugin_ok plugin_runwide.
+Proof. exact plugin_runwide_refuted. Qed.
+Print Assumptions C08_plugin_runwide_refuted.
+Theorem C08_plugin_always_refuted : ~ plugin_ok plugin_always.
+Proof. exact plugin_always_refuted. Qed.
+Print Assumptions C08_plugin_always_refuted.
+Theorem C08_plugin_noclear_refuted : ~ plugin_ok plugin_noclear.
+Proof. exact plugin_noclear_refuted. Qed.
+Print Assumptions C08_plugin_noclear_refuted.
+
+(* ---------------------------------------------------------------- the object of a call is a value *)
+
+(* relatesToObject: an expectation relates to object a iff it names no object or names exactly a -- naming the null object is
+   naming an object *)
+Theorem C08_relates_object_iff : forall a e, relates_obj a e = true <-> (e_obj e = None \/ e_obj e = Some a).
+Proof. exact relates_obj_iff. Qed.
+Print Assumptions C08_relates_object_iff.
+Theorem C08_null_object_is_an_object : forall e, e_obj e = Some 0%Z -> forall a, relates_obj a e = true <-> a = 0%Z.
+Proof. exact relates_null_object. Qed.
+Print Assumptions C08_null_object_is_an_object.
+
+(* on the reference semantics: a call is what an expectation on object b describes only if it passes an object and every object it
+   passes is b *)
+Theorem C08_matches_object_value : forall e f its b, sx_obj e = Some b -> matches e f its = true ->
+  objs_of its <> [] /\ forall a, In a (objs_of its) -> a = b.
+Proof. exact matches_object. Qed.
+Print Assumptions C08_matches_object_value.
+
+(* one expectation on object b (any b, the null object included), one call: passes iff the call is made on b; on another object it
+   fails at once with "unexpected object"; on no object it fails at the check with "expected call on object did not happen" *)
+Theorem C08_object_verdict : forall b a,
+  (passed_obs (runw (obj_scenario b [IObj a])) = true <-> a = b) /\
+  (a <> b -> exists fl, o_fail (runw (obj_scenario b [IObj a])) = Some (1%N, fl) /\ f_kind fl = FObjectUnexpected 0%N) /\
+  (exists fl, o_fail (runw (obj_scenario b [])) = Some (2%N, fl) /\ f_kind fl = FObjectMissing 0%N).
+Proof. exact object_verdict. Qed.
+Print Assumptions C08_object_verdict.
+(* an expectation that names no object accepts the call on any object and on none *)
+Theorem C08_no_object_expected : forall a,
+  passed_obs (runw (noobj_scenario [IObj a])) = true /\ passed_obs (runw (noobj_scenario [])) = true.
+Proof. exact no_object_expected. Qed.
+Print Assumptions C08_no_object_expected.
